@@ -557,7 +557,7 @@ Proof.
   unfold write_main. intros H.
   destruct ((mp_slice m =? 0) || negb (mp_slice m mod 4 =? 0)) eqn:E1; [discriminate H|].
   destruct (Nat.eqb (length (mp_rec m)) 0); [discriminate H|].
-  destruct (negb (ids_sorted (mp_rec m)) || negb (ids_sorted (mp_nonrec m))); [discriminate H|].
+  destruct (negb (ids_ok (mp_rec m)) || negb (ids_ok (mp_nonrec m))); [discriminate H|].
   apply orb_false_iff in E1. destruct E1 as [E1 E2]. apply N.eqb_neq in E1. apply negb_false_iff in E2. apply N.eqb_eq in E2.
   split; [congruence|]. split; assumption.
 Qed.
